@@ -67,7 +67,7 @@ package app
 //@ func WriteToFile
 //@ requires nonnil(target)
 //@ modifies disk()
-//@ ensures writes() == old(writes()) + 1 && lastpath() == target.Path() && lastdata() == contents
+//@ ensures writes() == old(writes()) + 1 && lastpath() == target.Path() && same(lastdata(), contents)
 
 // Reading never writes (the functions below only use os.ReadFile / os.MkdirAll / path manipulation; their bodies are
 // outside the verifier's subset, so these contracts are trusted assumptions).
@@ -110,3 +110,29 @@ package app
 //@ ensures implies(isAt && nonnil(b), isnil(result1) && result0 == b.(*bookmark).target.(*fileWithPath).absolutePath)
 //@ ensures implies(isAt && isnil(b), nonnil(result1))
 //@ ensures implies(!isAt, isnil(result1) && result0 == argValue)
+
+// ---------------------------------------------------------------------------------------------
+// context.go — property C05: a mutating command either writes a valid file or writes nothing.
+
+// ApplyReconciler: all-or-nothing. A result exists only when a creator produced a reconciler, every step succeeded
+// and the safeguard accepted the edited text; it never touches the disk (frame: no modifies clause). The steps are
+// opaque functions here (A-PUREFN); the first failing step ends the loop before MakeResult is reached.
+//@ func ApplyReconciler
+//@ requires forall(i, 0, len(reconcile), reconcile[i] != nil)
+//@ ensures isnil(result1) == (result0 != nil)
+//@ ensures implies(result0 != nil, txt.valid(result0.AllSerialised))
+//@ before MakeResult assert forall(i, 0, len(reconcile), isnil(reconcile[i](reconciler)))
+//@ loop 1 invariant forall(i, 0, rangeindex+1, isnil(reconcile[i](reconciler)))
+
+// ReconcileFile: the target file is written at most once, only after retrieval, parsing, every step and the safeguard
+// succeeded, and then with exactly the text the safeguard accepted; success is reported only after that write; every
+// failure before it leaves the disk untouched and returns no result.
+//@ func (*context).ReconcileFile
+//@ requires ctx != nil && nonnil(ctx.parser)
+//@ noframe
+//@ before WriteToFile assert isnil(err) && isnil(aErr) && result != nil && txt.valid(result.AllSerialised) && writes() == old(writes())
+//@ ensures isnil(result1) == (result0 != nil)
+//@ ensures writes() == old(writes()) || (writes() == old(writes()) + 1 && txt.valid(lastdata()))
+//@ ensures implies(result0 != nil, writes() == old(writes()) + 1 && same(lastdata(), result0.AllSerialised))
+//@ ensures implies(writes() == old(writes()), nonnil(result1))
+//@ loop 1 invariant true
